@@ -161,6 +161,12 @@ class Outcome:
             hs, goal = atomize_transcendentals(hs, goal)
         self.V.record(self, name, hs, goal, kind, budget_ms)
 
+    def prove_from(self, name, hyps, goal, kind='lemma', budget_ms=None):
+        """Prove goal from an explicit (smaller) hypothesis list only -- sound, and keeps hard lemmas quantifier free.
+        Each hypothesis must itself be justified (a path fact, a ground instance of one, or a previously proved clause)."""
+        goal = T.truthy(goal) if not isinstance(goal, bool) else goal
+        self.V.record(self, name, [T.to_bool_term(h) for h in hyps if not (isinstance(h, bool) and h)], goal, kind, budget_ms)
+
     def prove_all(self, clauses):
         for nm, g in clauses:
             self.prove(nm, g)
